@@ -32,6 +32,22 @@ internal users, path defaults, every path — shows the empty string or the fixe
 theorem redact_safe (c : ConfS) : safeConf (redact c) = true := by
   simp [safeConf, redact, redactPath_safe, List.all_map, redactPass_safe, Function.comp_def]
 
+/-- **Every page is safe**: whatever `itemsPerPage` and `page`, the page of the redacted view shows no
+password — redaction does not depend on which slice of the path list is served. -/
+theorem redact_page_safe (c : ConfS) (ipp p : Nat) :
+    (pageOf (redact c).paths ipp p).all (fun e => safePath e.2) = true := by
+  rw [List.all_eq_true]
+  intro e he
+  have hmem : e ∈ (redact c).paths := List.mem_of_mem_drop (List.mem_of_mem_take he)
+  simp only [redact, List.mem_map] at hmem
+  obtain ⟨x, _, rfl⟩ := hmem
+  exact redactPath_safe x.2
+
+/-- the page of the view is the redaction of the page of the configuration (same names, same order) -/
+theorem redact_page_comm (c : ConfS) (ipp p : Nat) :
+    pageOf (redact c).paths ipp p = (pageOf c.paths ipp p).map fun e => (e.1, redactPath e.2) := by
+  simp [pageOf, redact, List.map_take, List.map_drop]
+
 /-- a password that is set is replaced by exactly the placeholder; an empty one stays empty -/
 theorem redactPass_set (p : Bytes) (h : p ≠ []) : redactPass p = placeholder := by simp [redactPass, h]
 theorem redactPass_empty : redactPass [] = [] := by simp [redactPass]
@@ -284,6 +300,10 @@ theorem leaked_ideal (rs : List Bytes) (reqLine hostLine : Bytes) (hs : List Hea
   unfold leaked
   simp only [Prod.mk.injEq, List.flatMap_eq_nil_iff, List.filter_eq_nil_iff]
   constructor <;> intro h _ v _ <;> cases isInfixB v (reqLine ++ hostLine ++ idealHeaders rs hs ++ crlf ++ body) <;> simp
+
+/-- tie to the source: the lookup canonicalises the map key (`http.CanonicalHeaderKey`) — the model variant
+the driver runs, for which `dump_ci_fixed` is the full statement -/
+theorem gen_lookup_canonical : Gen.C07.lookupCanonical = true := by decide
 
 /-- tie to the source (regenerated on every check): the redaction test sits inside the loop over ALL values
 of a key and assigns the placeholder to the loop variable that is printed -/
